@@ -696,6 +696,27 @@ def d11(chk, prog):
     tb.done("a stated sample sex (or -y / the PAR genome / a correction switch) does not reach do_reference as given: the samples are shifted as the other sex")
 
 
+def d13(chk, prog):
+    chk.clause("D13", "one id per sample: the sexes and the pooled columns are keyed by fbase(file name); names that differ before their last extension stay apart")
+    fi = prog.fn("cnvlib.core.fbase")
+    tb = Table(chk, "sample-sexes", "fbase on literal file names: directory and .gz dropped, a known coverage / pipeline suffix dropped whole, otherwise the last extension only", fi.loc(), fi.qn)
+    cases = {"/d/S1.targetcoverage.cnn": "S1", "S1.antitargetcoverage.cnn": "S1", "run/S2.targetcoverage.csv": "S2", "pool.A.cnn": "pool.A", "pool.B.cnn": "pool.B", "a.b.c.cns": "a.b.c",
+             "x.cnr.gz": "x", "S.recal.bam": "S", "S.deduplicated.realign.bam": "S", "S.sorted.bam": "S.sorted", "noext": "noext", "dir.with.dots/T.cnn": "T", "sample-3.final.targetcoverage.cnn": "sample-3.final"}
+    got = {}
+    for name, want in cases.items():
+        W.reset()
+        it = Interp(prog)
+        out = tb.guard(lambda: ("v", it.run(fi.qn, [name])), name)
+        if out is None:
+            continue
+        got[name] = out[1]
+        tb.cell(out[1] == want, dict(file=name, sample_id=out[1], want=want))
+    if len(got) == len(cases):
+        distinct = len({got[n] for n in ("pool.A.cnn", "pool.B.cnn", "a.b.c.cns", "S.sorted.bam")}) == 4
+        tb.cell(distinct, dict(case="files of one pool named pool.A / pool.B keep different ids", ids={n: got[n] for n in ("pool.A.cnn", "pool.B.cnn")}))
+    tb.done("two files of a pool get the same sample id (their sexes and columns collide), or an id keeps part of the file suffix")
+
+
 def run(chk):
     prog = chk.prog
     chk.trust("Python grammar via ast", "boolean-mask stores / numpy broadcasting (absmodel.py)", "str.count counts non-overlapping occurrences of one character")
@@ -707,6 +728,7 @@ def run(chk):
     C15.sex_labels(chk, prog)
     d3(chk, prog)
     d4(chk, prog)
+    d13(chk, prog)
     d5(chk, prog)
     d6(chk, prog)
     d7(chk, prog)
